@@ -111,11 +111,25 @@ func servedOracleStrict(prop string) func(o *Outcome) []Violation {
 
 func storeFaults(g *Gen, n int, rate float64) []string {
 	out := make([]string, n)
+	// swarm style: every run enables its own subset of the fault kinds
+	all := []string{"err", "notfound", "delay", "trunc", "garbage", "drop", "cut", "cutend", "zerotail"}
+	g.R.Shuffle(len(all), func(i, j int) { all[i], all[j] = all[j], all[i] })
+	enabled := map[string]bool{}
+	for _, k := range all[:g.n(1, len(all))] {
+		enabled[k] = true
+	}
 	for i := range out {
 		if !g.p(rate) {
 			continue
 		}
-		out[i] = pick(g, "err", "err", "notfound", "delay:2", "delay:4", "trunc:"+strconv.Itoa(g.n(0, 4000)), "garbage:"+strconv.Itoa(g.n(0, 99)), "drop", "cut:"+strconv.Itoa(g.n(0, 60)), "zerotail:"+strconv.Itoa(pick(g, 8, 16, 16, 24, 40, 200)))
+		f := pick(g, "err", "err", "notfound", "delay:2", "delay:4", "trunc:"+strconv.Itoa(g.n(0, 4000)), "garbage:"+strconv.Itoa(g.n(0, 99)), "drop", "cut:"+strconv.Itoa(g.n(0, 60)), "cutend:"+strconv.Itoa(g.n(1, 20)), "zerotail:"+strconv.Itoa(pick(g, 8, 16, 16, 24, 40, 200)))
+		kind := f
+		if j := strings.IndexByte(f, ':'); j > 0 {
+			kind = f[:j]
+		}
+		if enabled[kind] {
+			out[i] = f
+		}
 	}
 	return out
 }
@@ -248,6 +262,11 @@ func genC09(g *Gen) *Plan {
 			if g.Tier != "thorough" && i%4 == 3 {
 				off = g.n(0, 40) // the header part of the record is the dense part
 			}
+			if i%4 == 1 {
+				// ... and so is its end (the fixed-width timestamps): cut a few bytes off the tail
+				faults = append(faults, "cutend:"+strconv.Itoa(1+(i/4)%24))
+				break
+			}
 			faults = append(faults, "cut:"+strconv.Itoa(off))
 		case "flip":
 			faults = append(faults, "flip:"+strconv.Itoa(g.n(0, 30000)))
@@ -301,7 +320,7 @@ func oracleC09(o *Outcome) []Violation {
 				if s.FullLen == 0 {
 					continue // offset beyond the record: nothing was cut
 				}
-				kind = "cut"
+				kind = "cut" // ("cutend" shares the prefix)
 			case "fli":
 				kind = "flip"
 			case "gar":
